@@ -169,6 +169,39 @@ func (g *G) WideTree(maxDepth, maxFan int) *xdoc.Doc {
 	return d.Finish()
 }
 
+// DeepTree generates narrow, deep documents: a spine of 10-33 nested elements (names repeat along it) with
+// occasional leaf siblings, text, comments and attributes. Depth-indexed state of the engine (per-level
+// counters, recursion, ancestor walks) is only exercised when matches occur 8, 16, 24 ... levels below a step.
+func (g *G) DeepTree() *xdoc.Doc {
+	d := xdoc.NewDoc()
+	depth := 10 + g.R.Intn(24)
+	cur := d.Root.AddElem("", "r", "")
+	for i := 0; i < depth; i++ {
+		if g.Chance(0.3) {
+			l := cur.AddElem("", Names[g.R.Intn(len(Names))], "")
+			if g.Chance(0.4) {
+				l.AddText(TextVals[g.R.Intn(len(TextVals))])
+			}
+		}
+		if g.Chance(0.2) {
+			cur.AddText(TextVals[g.R.Intn(len(TextVals))])
+		}
+		next := cur.AddElem("", Names[g.R.Intn(3)], "")
+		if g.Chance(0.3) {
+			next.AddAttr("", "id", "", fmt.Sprint(g.R.Intn(4)))
+		}
+		if g.Chance(0.15) {
+			cur.AddComment("c")
+		}
+		if g.Chance(0.25) {
+			cur.AddElem("", Names[g.R.Intn(len(Names))], "")
+		}
+		cur = next
+	}
+	cur.AddText(TextVals[g.R.Intn(len(TextVals))])
+	return d.Finish()
+}
+
 // ---------- exhaustive shapes ----------
 
 // shapes returns every ordered forest with n nodes as parent-index vectors in preorder.
